@@ -194,3 +194,92 @@ pub fn vector_stream() -> Vec<(String, String)> {
     );
     out
 }
+
+/// Source-level variation of a generated program (one definition per blank-line separated chunk, as pgen / vgen write them):
+/// some of the plain top-level functions get prototypes — immediately before the definition, hoisted in front of the first
+/// function, after the definition, repeated at the end — and some definitions move to the end of the module, so that they
+/// are used through the prototype only.  Functions with default arguments (see the known findings), templates, methods and
+/// the members of namespaces are left alone.  Every use still follows a declaration, so the front end accepts the result
+/// whenever it accepts the original.  Returns the new source and the number of prototypes written.
+pub fn protoize(src: &str, rng: &mut crate::util::Rng) -> (String, usize) {
+    let chunks: Vec<&str> = src.split("\n\n").collect();
+    let header = |c: &str| -> Option<String> {
+        let mut lines = c.lines();
+        let h = lines.next()?;
+        let open = lines.next()?;
+        let plain = !h.starts_with(' ')
+            && !["static", "struct", "enum", "namespace", "template", "const", "typedef", "//"].iter().any(|k| h.starts_with(k))
+            && h.contains('(')
+            && h.ends_with(')')
+            && !h.contains('=')
+            && open == "{";
+        if plain { Some(h.to_string()) } else { None }
+    };
+    let first_fn = match chunks.iter().position(|c| header(c).is_some()) {
+        Some(i) => i,
+        None => return (src.to_string(), 0),
+    };
+    // hoisting is safe only when every type / global is declared before the first function
+    let can_hoist = chunks[first_fn..].iter().all(|c| c.trim().is_empty() || header(c).is_some());
+    let mut hoisted: Vec<String> = Vec::new();
+    let mut body: Vec<String> = Vec::new();
+    let mut moved: Vec<String> = Vec::new();
+    let mut trailing: Vec<String> = Vec::new();
+    let mut n = 0;
+    for c in &chunks {
+        let h = match header(c) {
+            Some(h) if rng.chance(1, 2) => h,
+            _ => {
+                body.push(c.to_string());
+                continue;
+            }
+        };
+        let proto = format!("{};", h);
+        let def = c.trim_end_matches('\n').to_string();
+        match rng.below(5) {
+            0 => {
+                body.push(proto);
+                body.push(def);
+                n += 1;
+            }
+            1 if can_hoist => {
+                hoisted.push(proto);
+                body.push(def);
+                n += 1;
+            }
+            2 if can_hoist => {
+                hoisted.push(proto);
+                moved.push(def);
+                n += 1;
+            }
+            3 => {
+                body.push(proto.clone());
+                moved.push(def);
+                trailing.push(proto);
+                n += 2;
+            }
+            _ => {
+                body.push(def);
+                body.push(proto.clone());
+                n += 1;
+                if rng.chance(1, 2) {
+                    trailing.push(proto);
+                    n += 1;
+                }
+            }
+        }
+    }
+    let mut out: Vec<String> = Vec::new();
+    for (i, c) in body.into_iter().enumerate() {
+        if i == first_fn {
+            out.append(&mut hoisted);
+        }
+        out.push(c);
+    }
+    out.append(&mut hoisted);
+    out.append(&mut moved);
+    out.append(&mut trailing);
+    let mut text = out.iter().map(|c| c.trim_end_matches('\n')).filter(|c| !c.is_empty()).collect::<Vec<_>>().join("\n\n");
+    text.push('\n');
+    (text, n)
+}
